@@ -17,35 +17,35 @@ CHECKS = {
     "C04": {
         "category": "model_checking",
         "text": "TLC proves ConnLimit and the declarative pass relation on Pool.tla (all interleavings of 3 requests at critical-section grain, small limits); every recorded execution of the real pool (default, DFS over completion orders, every fault point, every cancellation point, late arrivals) is validated by TLC against PoolTrace, which re-evaluates ConnLimit and the pass relation after every scheduling quantum.",
-        "design_ref": "DESIGN.md 4.1, 5 (C04)",
+        "design_ref": "DESIGN.md A3, A4 (C04); plan: Part B 4, 5",
         "technique": "TLA+ model checking (TLC) + trace validation of recorded executions against the spec",
         "note": POOL_NOTE,
     },
     "C05": {
         "category": "model_checking",
-        "text": "TLC proves Forgotten and NoZombie on Pool.tla (intended design) and shows each named deviation breaks them; the real pool is executed with a fault of every kind at every network operation and a cancellation (scope-style and native) before every scheduling quantum, and TLC validates every trace: request counts, connection states and the predicates is_idle/is_available/has_expired/is_closed must be exactly what the specification allows.",
-        "design_ref": "DESIGN.md 4.1, 5 (C05), 6",
+        "text": "TLC proves Forgotten and NoZombie on Pool.tla (intended design) and shows each named deviation breaks them; the real pool is executed with a fault of every kind at every network operation and a cancellation (scope-style and native) before every scheduling quantum, and TLC validates every trace: request counts, connection states and the predicates is_idle/is_available/has_expired/is_closed must be exactly what the specification allows. HTTP/1.1, pooled HTTP/2 connections (shared by two requests: connection-level errors, failure while the preface is sent, late refusal) and connections through a forwarding proxy, a CONNECT tunnel and SOCKS5.",
+        "design_ref": "DESIGN.md A3, A4 (C05); plan: Part B 4, 5",
         "technique": "TLA+ model checking (TLC) + exhaustive fault/cancel-point enumeration judged by trace validation",
         "note": POOL_NOTE,
     },
     "C06": {
         "category": "model_checking",
         "text": "TLC proves StreamOwned on Pool.tla; the simulated network keeps a ledger of every stream opened/closed with its owning connection, which is part of the state TLC matches after every quantum of every recorded execution (faults and cancellations at every point, pool close at the end).",
-        "design_ref": "DESIGN.md 4.1, 5 (C06)",
+        "design_ref": "DESIGN.md A3, A4 (C06); plan: Part B 4, 5",
         "technique": "TLA+ model checking (TLC) + trace validation on the stream ledger",
         "note": POOL_NOTE,
     },
     "C07": {
         "category": "model_checking",
         "text": "TLC proves NoServiceableWaiter (safety, with ENABLED), deadlock freedom and Progress (liveness under weak fairness) on Pool.tla; recorded executions must satisfy the pass relation clause 'left queued => unserviceable' at every pass and end with every caller returned or legitimately blocked.",
-        "design_ref": "DESIGN.md 4.1, 5 (C07)",
+        "design_ref": "DESIGN.md A3, A4 (C07); plan: Part B 4, 5",
         "technique": "TLA+ model checking incl. liveness (TLC) + trace validation",
         "note": POOL_NOTE,
     },
     "C09": {
         "category": "model_checking",
         "text": "TLC checks that the algorithmic pass implements the declarative relation (reuse first, surplus-idle bound, no stale hand-out, closes only with a reason) on Pool.tla; sequential histories over {request, clock advance, server-side close} x (max_connections, max_keepalive_connections, keepalive_expiry) are executed on the real pool with virtual time and validated by TLC.",
-        "design_ref": "DESIGN.md 4.1, 5 (C09)",
+        "design_ref": "DESIGN.md A3, A4 (C09); plan: Part B 4, 5",
         "technique": "TLA+ model checking (TLC) + trace validation of keep-alive histories",
         "note": POOL_NOTE,
     },
@@ -60,28 +60,28 @@ CHECKS.update({
     "C10": {
         "category": "model_checking",
         "text": "TLC proves Routing / TlsIffSecure / SniAlpn / ProtoChoice on Establish.tla over the whole case matrix (scheme x proxy mode x http1/http2 x ALPN outcome x sni_hostname x ...); for every case and every single-fault script the real pool is run on the simulated network and TLC replays the recorded operation log in lock step: each connect / TLS / negotiation / request operation must be exactly the one the specification performs next (endpoint, server name, ALPN offer, stream the request is written to).",
-        "design_ref": "DESIGN.md 4.3, 5 (C10)",
+        "design_ref": "DESIGN.md A3, A4 (C10); plan: Part B 4, 5",
         "technique": "TLA+ model checking (TLC) + lock-step trace validation of operation logs",
         "note": EST_NOTE,
     },
     "C11": {
         "category": "model_checking",
         "text": "TLC proves the proxy-hop clauses (CONNECT first and only its 2xx opens the tunnel, refusal stops, secrets only on the proxy hop, caller data never in CONNECT, SOCKS names the origin and offers the configured method, forwarding uses absolute-form with proxy headers merged beneath the caller's) on Establish.tla; the real proxies are run for every case x reply script with marker strings planted in credentials, proxy headers, caller headers and body, and TLC replays the logs.",
-        "design_ref": "DESIGN.md 4.3, 5 (C11)",
+        "design_ref": "DESIGN.md A3, A4 (C11); plan: Part B 4, 5",
         "technique": "TLA+ model checking (TLC) + lock-step trace validation with taint markers",
         "note": EST_NOTE,
     },
     "C16": {
         "category": "model_checking",
-        "text": "Operation timeouts: TLC proves TimeoutTag on Establish.tla and replays the operation logs of every connection type with four distinct timeout values (and with none). Pool timeout: TLC proves PoolTimeoutExact on Pool.tla (deadline before / at / after a release, zero timeout) and validates executions of the real pool on the virtual clock, including the clock jumping to the deadline between any two scheduling quanta.",
-        "design_ref": "DESIGN.md 4.1, 4.3, 5 (C16)",
+        "text": "Operation timeouts: TLC proves TimeoutTag on Establish.tla and replays the operation logs of every connection type with four distinct timeout values (and with none). Pool timeout: TLC proves PoolTimeoutExact on Pool.tla (deadline before / at / after a release, zero timeout) and validates executions of the real pool on the virtual clock, including the clock jumping to the deadline between any two scheduling quanta. Exchange phase: OpTimeouts.tla judges the complete operation log of calls whose responses force many reads and writes (interim 1xx, chunked, close-delimited, uploads in parts, HTTP/1.1 and HTTP/2, tiny segmentation, reuse): every operation carries the value configured for its kind, or None when nothing was configured.",
+        "design_ref": "DESIGN.md A3, A4 (C16); plan: Part B 4, 5",
         "technique": "TLA+ model checking (TLC) + trace validation (operation logs and pool executions on a virtual clock)",
         "note": EST_NOTE + " " + POOL_NOTE,
     },
     "C20": {
         "category": "model_checking",
         "text": "TLC proves RetryBound / RetryOnlyConnect / BackoffSequence / LastErrorRaised / NoRetryAfterEstablished on Establish.tla for N in 0..4; the real direct connection (TCP and TLS stage, sync and async) is run for EVERY outcome sequence of length <= N+2 over {ok, ConnectError, ConnectTimeout, other} and for failures after establishment, and TLC replays each log (connect / start_tls / sleep(d) operations) in lock step.",
-        "design_ref": "DESIGN.md 4.3, 5 (C20)",
+        "design_ref": "DESIGN.md A3, A4 (C20); plan: Part B 4, 5",
         "technique": "TLA+ model checking (TLC) + exhaustive lock-step trace validation",
         "note": EST_NOTE,
     },
@@ -96,35 +96,35 @@ CHECKS.update({
     "C02": {
         "category": "model_checking",
         "text": "TLC proves on Framing.tla's reference receiver that for EVERY cut set the outcome equals Expected(case) and that deliveries are prefix-safe (millions of states: cases x all cut sets x truncation points); concretised responses (HTTP/1.1: Content-Length / chunked / close-delimited / bodiless, interim 1xx, header shapes; HTTP/2: HEADERS/DATA layouts, resets) are received by the real connections under chosen segmentations (one read, one byte at a time, cuts around every structural offset) and truncations, and TLC judges every observation sequence (FramingTrace).",
-        "design_ref": "DESIGN.md 4.4, 5 (C02)",
+        "design_ref": "DESIGN.md A3, A4 (C02); plan: Part B 4, 5",
         "technique": "TLA+ model checking of a reference receiver (TLC) + trace validation of observations from the real receivers",
         "note": SEQ_NOTE,
     },
     "C03": {
         "category": "model_checking",
-        "text": "ReqWire.tla defines, for every request shape (method, target kind incl. the target extension and '*', header list shape, caller-supplied Host / Content-Length / Transfer-Encoding, body as bytes or any iterator chunking, illegal heads), what an independent parser must read from the wire on HTTP/1.1 and HTTP/2; TLC checks the default-header laws over the whole shape space and judges what the parsers read from the bytes the real pool wrote (first use and reuse of the connection, sync and async twin).",
-        "design_ref": "DESIGN.md 4.6, 5 (C03)",
+        "text": "ReqWire.tla defines, for every request shape (method, target kind incl. the target extension and '*', header list shape, caller-supplied Host / Content-Length / Transfer-Encoding, body as bytes or any iterator chunking, illegal heads), what an independent parser must read from the wire on HTTP/1.1 and HTTP/2; TLC checks the default-header laws over the whole shape space and judges what the parsers read from the bytes the real pool wrote (first use and reuse of the connection, sync and async twin). Pool part: on a SHARED HTTP/2 connection the other callers' requests must still reach the server decodable when a caller fails or is cancelled at any point - PoolTrace clause m.connerr (a connection-level HTTP/2 error may appear only on a connection that was given an injected fault).",
+        "design_ref": "DESIGN.md A3, A4 (C03); plan: Part B 4, 5",
         "technique": "TLA+ specification as enumerator and oracle (TLC) + trace validation of parsed wire images",
         "note": SEQ_NOTE,
     },
     "C15": {
         "category": "exploration",
         "text": "Errors.tla is the taxonomy stage x cause -> allowed exception classes (TLC checks it is closed under the documented set); malformed inputs of every class at every stage (HTTP/1.1 head/body, HTTP/2 preface/frames/HPACK/:status, CONNECT replies, SOCKS5 replies), seeded mutations of valid conversations, every backend exception at every operation and invalid requests are run through the real pool, and TLC judges the class (and defining module) of what the caller saw; a hang has no action. 'Every byte sequence' is unbounded, so this is an exploration with a TLA+ oracle.",
-        "design_ref": "DESIGN.md 4.8, 5 (C15)",
+        "design_ref": "DESIGN.md A3, A4 (C15); plan: Part B 4, 5",
         "technique": "exploration (enumerated malformation classes + seeded mutation) judged by a TLA+ taxonomy with TLC",
         "note": SEQ_NOTE,
     },
     "C17": {
         "category": "model_checking",
         "text": "TLC proves Conservation / Bounded on Upgrade.tla for every tail length, lead, cut set and max_bytes sequence within the bounds; the real HTTP/1.1 connection is driven through 101 and CONNECT-2xx responses with those segmentations and read sequences (sync and async twin) and TLC replays every recorded read in lock step; afterwards the connection must not be idle and writes must have passed through unchanged.",
-        "design_ref": "DESIGN.md 4.5, 5 (C17)",
+        "design_ref": "DESIGN.md A3, A4 (C17); plan: Part B 4, 5",
         "technique": "TLA+ model checking (TLC) + lock-step trace validation",
         "note": SEQ_NOTE,
     },
     "C19": {
         "category": "model_checking",
         "text": "UrlModel.tla gives RFC 3986 component splitting over URL shapes (scheme, userinfo, host kind incl. IPv6 literals, port kind, path kind incl. ';parameters' / dot segments / escapes, query, fragment, str/bytes) with the origin and Host-header laws checked by TLC over the shape space; every shape is concretised, parsed by httpcore.URL, serialised and re-parsed, sent through a pool to read the Host header off the wire, and judged by TLC (UrlTrace).",
-        "design_ref": "DESIGN.md 4.7, 5 (C19)",
+        "design_ref": "DESIGN.md A3, A4 (C19); plan: Part B 4, 5",
         "technique": "TLA+ specification as enumerator and oracle (TLC) + trace validation of observations",
         "note": SEQ_NOTE,
     },
@@ -140,28 +140,28 @@ CHECKS.update({
     "C01": {
         "category": "model_checking",
         "text": "HTTP/1.1: TLC proves OwnResponse / ReuseGate on Pool.tla (a deviation that idles unfinished exchanges breaks them); every recorded pool execution (responses read fully, closed early, Connection: close, HTTP/1.0, early responses, faults, cancellations, all completion orders) is validated by TLC with the observed clauses: the token echoed in status line / header / body is the caller's own, and a connection that reports idle has finished its exchange in both directions on the simulated peer. HTTP/2: wire logs of concurrent streams (also two connections at once) are replayed against H2Wire, whose RetOk guard demands each caller's answer to be its own stream's.",
-        "design_ref": "DESIGN.md 4.1, 4.2, 5 (C01)",
+        "design_ref": "DESIGN.md A3, A4 (C01); plan: Part B 4, 5",
         "technique": "TLA+ model checking (TLC) + trace validation (pool executions and HTTP/2 wire logs)",
         "note": POOL_NOTE + " " + H2_NOTE,
     },
     "C12": {
         "category": "model_checking",
         "text": "TLC proves PermitAccounting, StreamCap, deadlock freedom and NoWedge (liveness under a fair server) on H2Conn.tla for all interleavings of 3 requests with SETTINGS changes and resets, and shows the code's deviation (SETTINGS lowered: the reader blocks on the semaphore inside the read lock) deadlocks; the real pool talks to a driver-controlled HTTP/2 server under DFS / random orders of client operations and server frames, and TLC replays each wire log against H2Wire (StreamCap on every new stream, Isolation at every return, NoWedge at the end).",
-        "design_ref": "DESIGN.md 4.2, 5 (C12)",
+        "design_ref": "DESIGN.md A3, A4 (C12); plan: Part B 4, 5",
         "technique": "TLA+ model checking incl. liveness (TLC) + trace validation of wire logs",
         "note": H2_NOTE,
     },
     "C13": {
         "category": "model_checking",
         "text": "TLC proves FlowSafe / UploadExact and upload completion (liveness) on H2Conn.tla for one and two uploads sharing the connection window and shows the 're-read after the lock' deviation deadlocks; uploads of 0, 1, 12, 65535, 65536 and 3x65535 bytes against server-chosen tiny / default windows, INITIAL_WINDOW_SIZE changes, stream-only / connection-only grants of various sizes and a long-poll neighbour are run on the real client and each DATA frame is checked by TLC against the windows as the server accounts them (H2Wire.CData); large downloads check that credit is returned.",
-        "design_ref": "DESIGN.md 4.2, 5 (C13)",
+        "design_ref": "DESIGN.md A3, A4 (C13); plan: Part B 4, 5",
         "technique": "TLA+ model checking incl. liveness (TLC) + trace validation of wire logs",
         "note": H2_NOTE,
     },
     "C14": {
         "category": "model_checking",
         "text": "TLC proves AtMostOnce and RetryOnlyUnsent on Pool.tla; recorded pool executions (every fault position, retries settings, double assignment re-queues) are validated with the observed clause 'request head seen on at most one stream' at every return; HTTP/2: GOAWAY with every last-stream-id relative to 3 concurrent streams (and a gated upload) under DFS / random orders is replayed against H2Wire: no new stream after GOAWAY, only a refused stream is ever re-sent.",
-        "design_ref": "DESIGN.md 4.1, 4.2, 5 (C14)",
+        "design_ref": "DESIGN.md A3, A4 (C14); plan: Part B 4, 5",
         "technique": "TLA+ model checking (TLC) + trace validation (pool executions and HTTP/2 wire logs)",
         "note": POOL_NOTE + " " + H2_NOTE,
     },
@@ -171,7 +171,7 @@ CHECKS.update({
     "C18": {
         "category": "model_checking",
         "text": "SyncAsync.tla walks PAIRS of event logs in lock step: every single-caller scenario of the corpus (sequential pool histories with a fault at every operation, scripted nested histories with virtual time and the response-object protocol, the Establish case matrix with failure scripts, request shapes on the wire) is run through the async classes and through the sync classes and TLC requires the same operations with the same arguments, the same bytes (length + crc32), the same results and exception classes and the same pool / connection state strings at every step. Side check outside the family, reported under its own key: httpcore/_sync is compared over the full length of every file with a fresh run of the repository's own unasync rules.",
-        "design_ref": "DESIGN.md 4.9, 5 (C18)",
+        "design_ref": "DESIGN.md A3, A4 (C18); plan: Part B 4, 5",
         "technique": "TLA+ lock-step trace validation of sync/async log pairs (TLC) + translation diff side check",
         "note": "Trusted: TLC 1.8.0; the two drivers present the same simulated network to both variants; crc32 digests stand for byte strings. Single-caller scenarios only.",
     },
@@ -181,7 +181,7 @@ CHECKS.update({
     "C08": {
         "category": "model_checking",
         "text": "Pool.tla in THREAD mode (cfg.threads: enqueue, pass, closing of evicted connections, the refusal at the ACTIVE gate and the re-queue are separate steps; tasks interleave at every lock and network operation) is model-checked by TLC for every pool invariant plus NoCollateral and, under fairness, Progress (no lost wake-up). The real httpcore.ConnectionPool is then run by real threads under a controlled baton-passing scheduler (httpcore._synchronization.threading replaced at run time by scheduler-aware Lock/Event/Semaphore; pre-emption at every lock acquire/release, Event.wait and simulated network operation) over serial, round-robin, pre-emption-bounded (all single, sampled pairs), PCT and random schedules; TLC validates every execution against PoolTrace in thread mode. Schedules that additionally pre-empt at random SOURCE LINES of httpcore/_sync/*.py are judged by the monitor ThreadCoarse.tla (own response, at most one stream, limit, no failing operation, no internal error, no hang, pool at rest).",
-        "design_ref": "DESIGN.md 4.1, 5 (C08)",
+        "design_ref": "DESIGN.md A3, A4 (C08); plan: Part B 4, 5",
         "technique": "TLA+ model checking (TLC, thread-grain Pool) + TLC trace validation of executions of the real sync pool under a controlled thread scheduler",
         "note": "Trusted: TLC 1.8.0, harness/tsched.py (scheduler, fake primitives), simnet. 2-4 threads, one request each, HTTP/1.1 origins; line-grain schedules are sampled, not enumerated, and judged only by the coarse monitor. KF09 (evicted connection activated) is a listed finding.",
     },
